@@ -181,15 +181,19 @@ pub fn scenario(t: &mut Tape, strict_only: bool) -> (GProg, std::collections::BT
 }
 
 pub fn case(tape: &[u32]) -> CaseOutcome {
-    let mut t = Tape::new(tape);
-    let strict_only = t.chance(1, 4);
+    let (aux, main) = split_tape(tape);
+    let mut a = Tape::new(&aux);
+    let mut t = Tape::new(&main);
+    let strict_only = a.chance(1, 4);
     let mut cfg = if strict_only { GenCfg::full() } else { GenCfg::fragment() };
     cfg.scoped_heavy = true;
     cfg.risk = 6;
-    cfg.fault = t.chance(1, 8);
-    cfg.scans = t.chance(1, 3);
+    cfg.fault = a.chance(1, 8);
+    cfg.scans = a.chance(1, 3);
     cfg.prints = false;
-    let use_scenario = t.chance(2, 3);
+    let use_scenario = a.chance(2, 3);
+    let n = 1 + a.choose(2);
+    let sources: Vec<String> = (0..n).map(|_| if a.chance(1, 3) { SHAPES[a.choose(SHAPES.len())].to_string() } else { pysrc::gen_source(&mut a) }).collect();
     let mut program = if use_scenario {
         let (prog, features) = scenario(&mut t, strict_only);
         let printed = crate::dsl::print_canonical(&prog);
@@ -203,8 +207,6 @@ pub fn case(tape: &[u32]) -> CaseOutcome {
         program.gen.features.insert("scenario");
     }
     let dsl = &program.printed.text;
-    let n = 1 + t.choose(2);
-    let sources: Vec<String> = (0..n).map(|_| if t.chance(1, 3) { SHAPES[t.choose(SHAPES.len())].to_string() } else { pysrc::gen_source(&mut t) }).collect();
     let file = match load_valid("C04", dsl) {
         Ok(f) => f,
         Err(o) => return o,
@@ -298,7 +300,7 @@ pub fn case(tape: &[u32]) -> CaseOutcome {
 }
 
 pub fn spec(tier: &str) -> Spec {
-    let mut s = Spec::new("C04", tier, 5_000, 60_000, 700);
+    let mut s = Spec::new("C04", tier, 5_000, 60_000, 1200);
     s.rule = "scoped-variable-heavy programs: definitions on every node of a kind read later through other captures, through loop variables over list captures, through syntax nodes stored in other scoped variables (`@a.ref.v`), `inherit`ed names defined on the module and again on nearer kinds of nodes, conditional / repeated definitions, values that encode definition site + node kind + position; 1-2 trees from the generators and from shapes with deep nesting, same-range parent/child chains and many nodes of one kind. Three quarters lie in the order-insensitive fragment and run in both modes, one quarter allow mutable scoped variables and run strict only. Oracle: the reference interpreter with exact (pre-order) node identity: Ok/Err and every attribute value copied out of a scoped variable. Non-trivial: a read through a different expression than the definition with >=2 matches of a stanza, or an inherited read with >=2 defining ancestors, or a touched node that shares its byte range with its parent. Distinct = fingerprint of (DSL text, sources).".into();
     s.assumptions = vec!["node identity is the pre-order number from one TreeCursor walk (harness/src/tree.rs)".into()];
     s
